@@ -168,6 +168,19 @@ def _check_entrypoint(at, obj, base, case):
     if full != base:
         raise Violation("ContractEntrypoint.encode(decode(m)) rebuilds %s, m = %s (parameter %s, python %r)"
                         % (full, base, _ts(at), py), case, "entrypoint-roundtrip:" + _blame(at))
+    # the same proxy object, used again: decoding transaction parameters under an explicit entrypoint (the documented use of
+    # the `entrypoint` argument) must not change what later calls on the proxy do
+    try:
+        py_tx = ep.decode(enc["value"], entrypoint=enc["entrypoint"])
+        enc_again = ep.encode(arg, mode="optimized")
+        py_again = ep.decode(base)
+    except Exception as e:
+        raise Violation("second use of one ContractEntrypoint proxy raised %r after decode(value, entrypoint=%r) (parameter %s)" % (
+            e, enc["entrypoint"], _ts(at)), case, "entrypoint-proxy-state:raise")
+    if enc_again != enc or not _py_eq(py_again, py):
+        raise Violation("ContractEntrypoint proxy answers differently after decode(value, entrypoint=%r): encode %s then %s, decode "
+                        "%r then %r (parameter %s)" % (enc["entrypoint"], enc, enc_again, py, py_again, _ts(at)), case,
+                        "entrypoint-proxy-state")
 
 
 def _reverse_dicts(o):
